@@ -23,8 +23,28 @@ PLAN = [(GROUP, {"quick": ['c01_q_', 'c02_q_single_op'], "thorough": ["c01_t_"]}
         (GROUP_POLL, {"quick": ['c01_q_'], "thorough": ["c01_t_"]})]
 
 
+IOUR_ASSUMPTIONS = [
+    "driver layer (io_uring): Driver::poll_entries (+ create_entry) and <Driver as Drop>::drop are interpreted from MIR against an "
+    "adversarial, contract-abiding completion queue: per in-flight operation any number of IORING_CQE_F_MORE completions, then at "
+    "most one final completion; CANCEL / NOTIFY bookkeeping entries in between; 2 operations in flight, <= 3 (thorough: 4) "
+    "queued entries, every such sequence",
+    "ghost ownership: one reference leaked to the kernel per in-flight operation; ErasedKey::from_raw re-materialises it (never more "
+    "often than it was leaked), dropping the key / Entry::notify releases it",
+    "outside: submission (push / push_raw: queue-full retry path), cancel, the blocking-pool path, the polling driver's registry, "
+    "what the kernel does with the buffers",
+]
+
+
 def run(tier):
-    return kaniprop.run("C01", tier, PLAN, ASSUMPTIONS)
+    import sys, os
+    sys.path.insert(0, os.path.join(os.path.dirname(os.path.abspath(__file__)), "..", "mirsym"))
+    import multiprop
+    import mirprop
+    from iourplan import IourPlan
+    return multiprop.run("C01", tier, [
+        ("key layer (kani)", lambda: kaniprop.run("C01", tier, PLAN, ASSUMPTIONS)),
+        ("io_uring driver layer (mirsym)", lambda: mirprop.run("C01", tier, IourPlan(), IOUR_ASSUMPTIONS)),
+    ])
 
 
 def replay(path):
